@@ -613,6 +613,8 @@ class Scores:
     ):
         scores = scores.astype(float)  # Otherwise we can get problems with nextafter
 
+        # The special case target_ratio >= 1 has to be decided before the shift below.
+        at_or_above_one = target_ratio >= 1.0
         if not left_continuous:
             min_ratio = 1.0 / len(scores)
             target_ratio = target_ratio - min_ratio
@@ -636,7 +638,7 @@ class Scores:
 
         # Special cases of TPR <= 0. and TPR >= 1.
         threshold[target_ratio <= 0.0] = np.nextafter(scores[0], -np.inf)
-        threshold[target_ratio >= 1.0] = np.nextafter(scores[-1], np.inf)
+        threshold[at_or_above_one] = np.nextafter(scores[-1], np.inf)
 
         return threshold
 
